@@ -395,9 +395,9 @@ func (q *qgen) supply() error {
 	case 3:
 		_, err = q.query("ent.entsupply")
 	case 4:
-		_, err = q.query("ent.supplyof", g.pick("nund", "nund", "atoken", "btoken", "stake", "-"))
+		_, err = q.query("ent.supplyof", g.pick("nund", "nund", "atoken", "btoken", "ibc/C0FFEE", "ibc/c0ffee", "stake", "-"))
 	case 5:
-		_, err = q.query("bank.supplyof", g.pick("nund", "nund", "atoken", "btoken", "stake", "-"))
+		_, err = q.query("bank.supplyof", g.pick("nund", "nund", "atoken", "btoken", "ibc/C0FFEE", "stake", "-"))
 	default:
 		_, err = q.query("ent.totalsupply", page("-", 0, uint64(g.rng.Intn(4)), g.chance(50), g.chance(30))...)
 	}
